@@ -110,8 +110,10 @@ def dmoOf (es : List Entry) (x : Nat) : List Nat :=
 
 /-- `apply_memberof` on a flat graph: every live affected entry gets its directmemberof
 recomputed from the committed member lists. -/
-def recompute (aff : Entry → Bool) (es : List Entry) : List Entry :=
-  es.map (fun e => if e.st == .live && aff e then { e with dmo := dmoOf es e.id } else e)
+def recE (aff : Entry → Bool) (es0 : List Entry) (e : Entry) : Entry :=
+  if e.st == .live && aff e then { e with dmo := dmoOf es0 e.id } else e
+
+def recompute (aff : Entry → Bool) (es : List Entry) : List Entry := es.map (recE aff es)
 
 /-! ## operations -/
 
@@ -168,6 +170,12 @@ def opCreate (es : List Entry) (ts id : Nat) (k : Kind) (ms : List Nat) (r : Opt
       else if hasRefers es p then .err .refLoop
       else done
 
+def addMemE (g m : Nat) (e : Entry) : Entry :=
+  if e.id == g then { e with member := e.member ++ [m] } else e
+
+def remMemE (g m : Nat) (e : Entry) : Entry :=
+  if e.id == g then { e with member := e.member.filter (· != m) } else e
+
 def opAdd (es : List Entry) (g m : Nat) : Res :=
   match find es g with
   | none => .ok es none
@@ -178,8 +186,7 @@ def opAdd (es : List Entry) (g m : Nat) : Res :=
     else if ge.member.contains m then .ok (recompute (fun e => e.id == g) es) none
     else if !(isLive es m) then .err .plugin
     else
-      .ok (recompute (fun e => e.id == g || e.id == m)
-        (es.map (fun e => if e.id == g then { e with member := e.member ++ [m] } else e))) none
+      .ok (recompute (fun e => e.id == g || e.id == m) (es.map (addMemE g m))) none
 
 def opRem (es : List Entry) (g m : Nat) : Res :=
   match find es g with
@@ -188,8 +195,7 @@ def opRem (es : List Entry) (g m : Nat) : Res :=
     if ge.st != .live then .ok es none
     else if !(ge.member.contains m) then .ok (recompute (fun e => e.id == g) es) none
     else
-      .ok (recompute (fun e => e.id == g || e.id == m)
-        (es.map (fun e => if e.id == g then { e with member := e.member.filter (· != m) } else e))) none
+      .ok (recompute (fun e => e.id == g || e.id == m) (es.map (remMemE g m))) none
 
 /-- delete: the filter's live matches. -/
 def inT (ids : List Nat) (e : Entry) : Bool := e.st == .live && ids.contains e.id
@@ -266,27 +272,35 @@ revived entries whose recycled_directmemberof names `g`. -/
 def reviveAdds (es : List Entry) (x : Nat) (g : Entry) : List Nat :=
   (es.filter (fun r => inR x r && r.rdmo.contains g.id && !g.member.contains r.id)).map (·.id)
 
+/-- refint on revive: a reference restored from the cascade mark must point at a live entry
+(the list already holds the revived entries) -/
+def reviveRefBad (es1 : List Entry) (e : Entry) : Bool :=
+  match e.casc with
+  | some r => !(isLive es1 r)
+  | none => false
+
+/-- refint on revive: the target of a `refers` must not itself refer to something -/
+def reviveLoopBad (es1 : List Entry) (e : Entry) : Bool :=
+  match revRefers e with
+  | some r => hasRefers es1 r
+  | none => false
+
+def reviveAddE (es : List Entry) (x : Nat) (g : Entry) : Entry :=
+  if g.kind == .group && g.st != .tomb then { g with member := g.member ++ reviveAdds es x g } else g
+
 def opRevive (es : List Entry) (ts x : Nat) : Res :=
   match find es x with
   | none => .err .noMatch
   | some xe =>
     if xe.st != .recycled then .err .noMatch
     else if es.any (fun e => inR x e && e.kind == .cert && (revRefers e).isNone) then .err .schema
-    else if es.any (fun e => inR x e &&
-        (match e.casc with
-         | some r => !(isLive (es.map (reviveE x ts)) r)
-         | none => false)) then .err .plugin
-    else if es.any (fun e => inR x e &&
-        (match revRefers e with
-         | some r => hasRefers (es.map (reviveE x ts)) r
-         | none => false)) then .err .refLoop
+    else if es.any (fun e => inR x e && reviveRefBad (es.map (reviveE x ts)) e) then .err .plugin
+    else if es.any (fun e => inR x e && reviveLoopBad (es.map (reviveE x ts)) e) then .err .refLoop
     else
       let revIds := (es.filter (inR x)).map (·.id)
       let person := es.any (fun e => inR x e && e.kind == .person)
       .ok (recompute (fun e => revIds.contains e.id || (person && e.kind == .person))
-        ((es.map (reviveE x ts)).map
-          (fun g => if g.kind == .group && g.st != .tomb
-            then { g with member := g.member ++ reviveAdds es x g } else g))) none
+        ((es.map (reviveE x ts)).map (reviveAddE es x))) none
 
 /-- `to_tombstone`: only uuid, class and the two cids survive. -/
 def tombE (ts : Nat) (e : Entry) : Entry :=
@@ -296,12 +310,13 @@ def tombE (ts : Nat) (e : Entry) : Entry :=
 def purgeSel (sid : Nat) (cut : Cid.Cid) (e : Entry) : Bool :=
   e.st == .recycled && cmpCid purgeRecycledOp ⟨e.lastMod, sid⟩ cut
 
+def purgeE (sid : Nat) (cut : Cid.Cid) (ts : Nat) (e : Entry) : Entry :=
+  if purgeSel sid cut e then tombE ts e else e
+
 def opPurgeRecycled (es : List Entry) (ts sid : Nat) : Res :=
   match subSecs ts purgeRecycledWindow with
   | none => .err .replCid
-  | some cut =>
-    .ok (es.map (fun e => if purgeSel sid cut e then tombE ts e else e))
-      (some (es.filter (purgeSel sid cut)).length)
+  | some cut => .ok (es.map (purgeE sid cut ts)) (some (es.filter (purgeSel sid cut)).length)
 
 /-- `reap_tombstones`: in the trimmed RUV range and `can_delete`. -/
 def reapSel (sid : Nat) (trim : Cid.Cid) (e : Entry) : Bool :=
